@@ -22,9 +22,10 @@ import qmi
 from qmi.core.config_defs import CfgQmi, CfgContext
 from qmi.core.exceptions import QMI_UsageException, QMI_DuplicateNameException, QMI_UnknownNameException, \
                                 QMI_ConfigurationException, QMI_InvalidOperationException, QMI_WrongThreadException
-from qmi.core.messaging import MessageRouter, QMI_Message, QMI_MessageHandlerAddress, QMI_MessageHandler
+from qmi.core.messaging import MessageRouter, QMI_Message, QMI_MessageHandlerAddress, QMI_MessageHandler, \
+                               QMI_ErrorReplyMessage
 from qmi.core.rpc import QMI_RpcObject, QMI_RpcProxy, RpcObjectManager, rpc_method, RpcObjectDescriptor, \
-                         make_interface_descriptor, QMI_LockTokenDescriptor
+                         make_interface_descriptor, QMI_LockTokenDescriptor, QMI_RpcFuture
 from qmi.core.pubsub import SignalManager, QMI_SignalReceiver
 from qmi.core.instrument import QMI_Instrument
 from qmi.core.task import QMI_Task, QMI_TaskRunner
@@ -542,6 +543,12 @@ class QMI_Context:
         for manager in managers:
             self.unregister_message_handler(manager)
             manager.stop()
+
+        # RPC calls that are still waiting for a reply can not be answered anymore: fail them.
+        for handler in self._message_router.get_message_handlers():
+            if isinstance(handler, QMI_RpcFuture):
+                handler.handle_message(QMI_ErrorReplyMessage(
+                    handler.rpc_object_address, handler.address, "", "Context {} stopped".format(self.name)))
 
         # Update number of active contexts.
         _active_context_counter.dec()
